@@ -583,7 +583,11 @@ def families(tier):
     for shape in ('n-n', '1-n', 'n-1'):
         S.append(('tables', shape, 'i64', 2, 3, 2))
     S.append(('tables', 'n-n', 'str', 2, 2, 2))
+    # joins on three key columns (the combination of per-column codes has to stay injective)
+    S.append(('tables', '3-3', 'i64', 2, 2, 2))
     if t:
+        S.append(('tables', '3-3', 'i64', 3, 2, 2))
+        S.append(('tables', '3-3', 'str', 2, 2, 2))
         for cfg in ('i64', 'str', 'f64'):
             S.append(('tables', '1-1', cfg, 3, 3, 3))
         S.append(('tables', '1-1', 'i64', 3, 4, 3))
